@@ -1170,6 +1170,12 @@ pub fn run(tier: &str) -> i32 {
       ("512x4", vec![4; 512]),
       ("60,252,...", { let mut v = Vec::new(); let mut t = 0; while t + 312 <= 2048 { v.push(60); v.push(252); t += 312; } v.push(2048 - t); v }),
       ("8+632+1408", vec![8, 632, 1408]),
+      // batches of a whole divider period and more (a straight-line block filling a ROM bank
+      // delivers more than 65536 clocks in one step)
+      ("1x65536", vec![65536]),
+      ("65540+65532", vec![65540, 65532]),
+      ("1x131076", vec![131076]),
+      ("256+65536+256", vec![256, 65536, 256]),
     ];
     let ns = schedules.len() as u64;
     let total_cases = 8 * 2 * 4 * ns;
@@ -1234,7 +1240,7 @@ pub fn run(tier: &str) -> i32 {
       },
       |case, how| (format!("C13 action=elapse context-case crash={}", how), J::obj().set("case", J::u(case))),
     );
-    let c = rep.add_stage("in-the-machine", "TAC 0..7 x TIMA {00,F0} x device context {idle, OAM DMA in flight, display on, both} x 6 partitions of 2048 clocks: registers set through the bus, time delivered by MemoryAreas::run_clock_cycles, DIV / TIMA / IF bit 2 read through the bus after every batch", r);
+    let c = rep.add_stage("in-the-machine", "TAC 0..7 x TIMA {00,F0} x device context {idle, OAM DMA in flight, display on, both} x 6 partitions of 2048 clocks and 4 schedules with batches of 65536..131076 clocks: registers set through the bus, time delivered by MemoryAreas::run_clock_cycles, DIV / TIMA / IF bit 2 read through the bus after every batch", r);
     let mut c2 = c;
     c2[C_STATES] = 0;
     c2[C_NEW_STATES] = 0;
